@@ -121,7 +121,8 @@ fn regp_vals<T: EnumI64 + WithPrivateRange + Send>(reg: Reg) -> Vec<(RegisteredL
             v.push((RegisteredLabelWithPrivate::Assigned(a), Item::int(*val as i128).det()));
         }
     }
-    for p in [-65537i64, -65538, -(1 << 31), -(1 << 32) - 1, i64::MIN] {
+    // private-use values on both sides of every head-width boundary, down to the two smallest
+    for p in [-65537i64, -65538, -(1 << 31), -(1 << 31) - 1, -(1 << 32), -(1 << 32) - 1, -(1 << 32) - 2, -(1 << 62), i64::MIN + 2, i64::MIN + 1, i64::MIN] {
         v.push((RegisteredLabelWithPrivate::PrivateUse(p), Item::int(p as i128).det()));
     }
     for s in ["", "a", "b", "aa", "\u{e9}", "zzzzzzzzzzzzzzzzzzzzzzz", "zzzzzzzzzzzzzzzzzzzzzzzz"] {
